@@ -56,7 +56,14 @@ func errStr(err error) string {
 	return "other"
 }
 
-func encode(k, v []byte) string {
+func encode(k, v []byte) (res string) {
+	defer func() {
+		if r := recover(); r != nil {
+			res = "PANIC"
+			viol("marshal_len", "encode-crash", fmt.Sprintf("encoding a pair (key %d bytes, value %d bytes) crashed: %v", len(k), len(v), r),
+				map[string]interface{}{"op": "enc", "klen": len(k), "vlen": len(v)})
+		}
+	}()
 	o := &kv.KV{Key: string(k), Val: string(v)}
 	l, lerr := o.MarshalLen()
 	data, err := o.MarshalBinary()
@@ -100,6 +107,19 @@ func decode(pk, pv, data []byte) (res string) {
 	return fmt.Sprintf("n=%d err=%s key=%s val=%s bin=%s key=%s val=%s", n, errStr(err), digest([]byte(o.Key)), digest([]byte(o.Val)), errStr(err2), digest([]byte(o2.Key)), digest([]byte(o2.Val)))
 }
 
+// safeMarshal: a crash of the encoder is reported by encode(); here it only ends the case
+func safeMarshal(k, v []byte) (data []byte) {
+	defer func() {
+		if r := recover(); r != nil {
+			data = nil
+		}
+	}()
+	d, err := (&kv.KV{Key: string(k), Val: string(v)}).MarshalBinary()
+	if err != nil {
+		return nil
+	}
+	return d
+}
 
 func min(a, b int) int {
 	if a < b {
@@ -113,6 +133,7 @@ func main() {
 	n := flag.Int("n", 2000, "random pairs")
 	depth := flag.Int("depth", 5, "exhaustive decode depth over the reduced alphabet")
 	out := flag.String("out", "", "output directory")
+	big := flag.Bool("big", false, "include value lengths around 2^21 in the length grid")
 	boundary := flag.Bool("boundary", true, "probe the ColferSizeMax boundary on the real code")
 	flag.Parse()
 	if *out == "" {
@@ -135,7 +156,10 @@ func main() {
 			run.Count("c20:rejected_or_error")
 		}
 	}
-	lens := []int{0, 1, 2, 127, 128, 129, 16383, 16384, 16385, 70000}
+	lens := []int{0, 1, 2, 127, 128, 129, 255, 256, 16383, 16384, 16385, 16511, 16512, 70000}
+	if *big {
+		lens = append(lens, 2097151, 2097152, 2097153) // the four-byte varint boundary (slow on the model side)
+	}
 	rep := func(b byte, n int) []byte { return []byte(strings.Repeat(string([]byte{b}), n)) }
 	// 1. boundary-length pairs
 	for _, kn := range lens {
@@ -159,6 +183,31 @@ func main() {
 	}
 	rec(nil, 0)
 	run.Extra["exhaustive_decode_depth"] = *depth
+	// 2b. crafted length prefixes: header 0 / 1, a varint of 1..12 bytes (continuation bytes 80 / ff / random), a last
+	// byte from a small set, optionally followed by payload bytes and the terminator - reaches lengths >= 2^63, shifts
+	// >= 64 and the size limit, which no short exhaustive string can
+	for _, hdr := range []byte{0, 1} {
+		for n := 1; n <= 12; n++ {
+			for _, cont := range []int{0x80, 0xff, -1} {
+				for _, last := range []byte{0x00, 0x01, 0x02, 0x7f} {
+					d := []byte{hdr}
+					for i := 0; i < n-1; i++ {
+						c := byte(cont)
+						if cont < 0 {
+							c = byte(0x80 | r.Intn(128))
+						}
+						d = append(d, c)
+					}
+					d = append(d, last)
+					for _, tail := range [][]byte{nil, {0x7f}, {0x41, 0x7f}, {0x41, 0x42, 0x43, 0x7f}} {
+						dd := append(append([]byte{}, d...), tail...)
+						emit(fmt.Sprintf("{\"op\":\"dec\",\"pk\":\"6b\",\"pv\":\"76\",\"data\":\"%s\"}", hex.EncodeToString(dd)), decode([]byte("k"), []byte("v"), dd))
+						run.Count("c20:crafted_varint")
+					}
+				}
+			}
+		}
+	}
 	// 3. random pairs and mutated encodings
 	for i := 0; i < *n; i++ {
 		k := make([]byte, r.Intn(40))
@@ -173,8 +222,8 @@ func main() {
 		}
 		emit(fmt.Sprintf("{\"op\":\"enc\",\"k\":\"%s\",\"v\":\"%s\"}", hex.EncodeToString(k), hex.EncodeToString(v)), encode(k, v))
 		run.Nontrivial(fmt.Sprintf("r%d", i))
-		data, _ := (&kv.KV{Key: string(k), Val: string(v)}).MarshalBinary()
-		for m := 0; m < 3; m++ {
+		data := safeMarshal(k, v)
+		for m := 0; m < 3 && data != nil; m++ {
 			d := append([]byte{}, data...)
 			switch r.Intn(4) {
 			case 0:
@@ -210,7 +259,11 @@ func main() {
 				if err != nil || l != total {
 					continue
 				}
-				data, err := o.MarshalBinary()
+				data := safeMarshal([]byte(o.Key), []byte(o.Val))
+				err = nil
+				if data == nil {
+					break
+				}
 				var back kv.KV
 				uerr := back.UnmarshalBinary(data)
 				run.Count("c20:size_limit_probe")
